@@ -494,7 +494,7 @@ pub fn spec_for(which: &str, replay: bool) -> Spec<'static> {
                 "5000 nodes / 500 ms are the monitor's reading of 'a small bounded amount of further work' (the unchanged engine overshoots by at most one node); a legitimate poll-every-few-thousand-nodes design is deliberately not accused".into(),
                 "CPU time of a single-threaded process never exceeds its wall time, so CPU time above the bound is a sound witness of a wall-clock overrun whatever the machine load".into(),
             ],
-            required: if replay { vec![] } else { vec!["interrupted_searches", "explosive_quiescence_trials", "deep_middlegame_trials", "wall_clock_trials", "wall_clock_trials_on_an_engine_that_searched_before", "blackbox_go_movetime", "blackbox_short_go_after_a_long_search", "wall_clock_trials_on_sparse_endgames", "blackbox_go_movetime_on_sparse_endgames", "wall_clock_trials_after_a_search_that_ended_long_before_its_deadline"] },
+            required: if replay { vec![] } else { vec!["interrupted_searches", "explosive_quiescence_trials", "deep_middlegame_trials", "wall_clock_trials", "wall_clock_trials_on_an_engine_that_searched_before", "blackbox_go_movetime", "blackbox_short_go_after_a_long_search", "wall_clock_trials_on_sparse_endgames", "blackbox_go_movetime_on_sparse_endgames", "wall_clock_trials_after_a_search_that_ended_long_before_its_deadline", "blackbox_go_movetime_of_seconds_on_tactical_positions"] },
             exhaustive: false,
             extra: vec![],
         }
@@ -1269,10 +1269,32 @@ fn c07_blackbox(ctx: &Ctx) -> Stats {
                     }
                 }
             };
+            // once per worker: a budget of seconds on a tactical position (scores swing from one iteration to
+            // the next there), so that a deadline pushed back by a fraction of the budget — a soft limit, a
+            // "panic time" extension — exceeds the 500 ms slack
+            let long_case = i == 1;
+            let p = if long_case {
+                match rng.below(4) {
+                    0 => gen::g_battery_loaded(&mut rng),
+                    1 => gen::g_underpromo(&mut rng),
+                    2 => gen::g_stalemate_swindle(&mut rng),
+                    _ => {
+                        let men = 4 + rng.below(3) as i64;
+                        gen::g_small(&mut rng, men)
+                    }
+                }
+            } else {
+                p
+            };
             if p.legal_moves().is_empty() {
                 continue;
             }
-            let t = *rng.pick(&[0u64, 1, 5, 20, 50, 100, 200]);
+            let t = if long_case {
+                st.bump("blackbox_go_movetime_of_seconds_on_tactical_positions");
+                *rng.pick(&[2400u64, 3000])
+            } else {
+                *rng.pick(&[0u64, 1, 5, 20, 50, 100, 200])
+            };
             if i % 3 == 0 {
                 // a long search first (one that outlasts any earlier one in this process), so that a
                 // poll schedule kept across searches has run far ahead of the next search
